@@ -10,6 +10,10 @@ mod props;
 use common::{Report, Tier};
 
 fn main() {
+    // anyhow captures a backtrace for every library Err when RUST_BACKTRACE is set: ruinous for enumerations
+    // that provoke millions of builder rejections
+    std::env::set_var("RUST_LIB_BACKTRACE", "0");
+    std::env::set_var("RUST_BACKTRACE", "0");
     let args: Vec<String> = std::env::args().collect();
     if args.len() < 2 {
         eprintln!("usage: vcheck <ID> [--tier quick|thorough] [--replay FILE]");
